@@ -18,10 +18,18 @@ use crate::server::AuthorizationHandler;
 /// event sent back to the server task when a session ends
 struct SessionClose(u128);
 
+/// what the server keeps for each session, dropping it ends the session
+struct SessionRecord {
+    commands: tokio::sync::mpsc::Sender<ServerCommand>,
+    // the session watches for this receiver to be dropped, so that it also ends
+    // when it is in the middle of a transaction, e.g. writing to a peer that stopped reading
+    _closed: tokio::sync::mpsc::Receiver<()>,
+}
+
 struct SessionTracker {
     max_sessions: usize,
     id: u128,
-    sessions: BTreeMap<u128, tokio::sync::mpsc::Sender<ServerCommand>>,
+    sessions: BTreeMap<u128, SessionRecord>,
 }
 
 impl SessionTracker {
@@ -45,7 +53,7 @@ impl SessionTracker {
         ret
     }
 
-    pub(crate) fn add(&mut self, sender: tokio::sync::mpsc::Sender<ServerCommand>) -> u128 {
+    pub(crate) fn add(&mut self, record: SessionRecord) -> u128 {
         if self.sessions.len() >= self.max_sessions {
             if let Some(oldest) = self.sessions.keys().next().copied() {
                 tracing::warn!(
@@ -59,7 +67,7 @@ impl SessionTracker {
         }
 
         let id = self.get_next_id();
-        self.sessions.insert(id, sender);
+        self.sessions.insert(id, record);
         id
     }
 
@@ -145,12 +153,12 @@ where
             ServerCommand::Shutdown => return,
         }
 
-        for sender in self.tracker.sessions.values_mut() {
+        for session in self.tracker.sessions.values_mut() {
             // best effort to send the command to each session this isn't critical so we wouldn't
             // want to slow the server down by awaiting it: a session that is stuck in a transaction
             // (e.g. its peer stopped reading) with a full queue must not block accepting
             // connections, the other sessions or shutdown
-            let _ = sender.try_send(command);
+            let _ = session.commands.try_send(command);
         }
     }
 
@@ -201,7 +209,11 @@ where
 
     async fn handle(&mut self, socket: tokio::net::TcpStream, addr: SocketAddr) {
         let (tx, rx) = tokio::sync::mpsc::channel(8); // all we do is change settings, so a constant is fine
-        let id = self.tracker.add(tx);
+        let (closed_tx, closed_rx) = tokio::sync::mpsc::channel(1);
+        let id = self.tracker.add(SessionRecord {
+            commands: tx,
+            _closed: closed_rx,
+        });
         tracing::info!(
             "accepted connection from: {} - assigned session id: {}",
             addr,
@@ -215,15 +227,18 @@ where
         let decode_level = self.decode;
 
         let session = async move {
-            run_session(
-                socket,
-                addr,
-                connection_handler,
-                decode_level,
-                handler_map,
-                rx,
-            )
-            .await;
+            tokio::select! {
+                _ = run_session(
+                    socket,
+                    addr,
+                    connection_handler,
+                    decode_level,
+                    handler_map,
+                    rx,
+                ) => {}
+                // evicted or server shutdown, possibly in the middle of a transaction
+                _ = closed_tx.closed() => {}
+            }
 
             // no matter what happens, we send the id back to the server
             let _ = notify_close.send(SessionClose(id)).await;
